@@ -285,3 +285,122 @@ pub fn pair(c: &mut Cur) -> c14::Pair {
     };
     c14::Pair { prog, s1, s2 }
 }
+
+/// One instruction line with free-form operands, for the `instr` (C04) and `gate` (C13) targets.
+#[derive(Clone, Debug)]
+pub struct InstrCase {
+    pub m: String,
+    pub ops: Vec<crate::isa::Opd>,
+    /// number of `nop`s in front (the instruction's own word address)
+    pub pc: u8,
+    /// index into the device table (+1), 0 = none
+    pub dev: u16,
+    /// how each value operand is spelled: 0 decimal, 1 hex when non-negative, 2 through `.equ`, 3 parenthesised, 4 `v+0`
+    pub spell: Vec<u8>,
+}
+
+pub fn instr_case(c: &mut Cur) -> InstrCase {
+    use crate::isa::{Opd, PMode, Ptr};
+    let all = crate::isa::all_mnemonics();
+    let m = all[c.below(all.len())].clone();
+    let frame = crate::props::c04::baseline(&m);
+    let pc = c.u8() % 6;
+    let dev = c.u16();
+    let ptr = |b: u8| [Ptr::X, Ptr::Y, Ptr::Z][(b % 3) as usize];
+    let mode = |b: u8| [PMode::Plain, PMode::PostInc, PMode::PreDec][(b % 3) as usize];
+    const EDGE: &[i64] = &[-2049, -2048, -2047, -129, -128, -127, -65, -64, -63, -33, -32, -1, 0, 1, 7, 8, 15, 16, 30, 31, 32, 33, 62, 63, 64, 65, 127, 128, 255, 256, 257, 2047, 2048, 2049, 4095, 4096, 65535, 65536, 65537, (1 << 22) - 1, 1 << 22, (1 << 22) + 1];
+    let free = |c: &mut Cur| -> Opd {
+        match c.below(12) {
+            0..=2 => Opd::R(c.u8() % 40),
+            3 => Opd::K(c.u8() as i64),
+            4 => Opd::K(-(c.u8() as i64)),
+            5 => Opd::K(EDGE[c.below(EDGE.len())]),
+            6 => Opd::K(c.u16() as i64),
+            7 => {
+                // wrap-around twin of a small value
+                let k = [1i64 << 8, 1 << 16, 1 << 32, -(1 << 8), -(1 << 16), -(1 << 32)][c.below(6)];
+                Opd::K(c.u8() as i64 % 64 + k * (1 + c.below(3) as i64))
+            }
+            8 => Opd::K(c.u64() as i64 >> (c.u8() % 64)),
+            9 => Opd::P(ptr(c.u8()), mode(c.u8())),
+            10 => Opd::Q(ptr(c.u8()), c.u8() as i64 % 70 - 3),
+            _ => Opd::Q(ptr(c.u8()), EDGE[c.below(EDGE.len())]),
+        }
+    };
+    // mostly the mnemonic's own operand frame with some positions replaced, sometimes a free list
+    let ops: Vec<Opd> = if c.below(4) == 0 {
+        c.vec(0, 4, |c| free(c))
+    } else {
+        let mut v = frame.clone();
+        for slot in v.iter_mut() {
+            match c.below(4) {
+                0 => {}
+                1 => {
+                    // same kind, other value
+                    *slot = match slot {
+                        Opd::R(_) => Opd::R(c.u8() % 34),
+                        Opd::K(_) => match free(c) {
+                            Opd::K(v) => Opd::K(v),
+                            _ => Opd::K(c.u8() as i64),
+                        },
+                        Opd::P(..) => Opd::P(ptr(c.u8()), mode(c.u8())),
+                        Opd::Q(..) => Opd::Q(ptr(c.u8()), c.u8() as i64 % 70 - 3),
+                    }
+                }
+                _ => *slot = free(c),
+            }
+        }
+        match c.below(8) {
+            0 => {
+                v.pop();
+            }
+            1 => v.push(free(c)),
+            _ => {}
+        }
+        v
+    };
+    let spell = (0..ops.len()).map(|_| c.u8() % 5).collect();
+    InstrCase { m, ops, pc, dev, spell }
+}
+
+impl InstrCase {
+    /// (source, the operands the reference is asked about — identical to what is written)
+    pub fn source(&self, device: Option<&str>) -> String {
+        use crate::isa::Opd;
+        let mut pre = String::new();
+        if let Some(d) = device {
+            pre.push_str(&format!(".device {}\n", d));
+        }
+        let mut parts = vec![];
+        for (i, o) in self.ops.iter().enumerate() {
+            let val = |v: i64, pre: &mut String| -> String {
+                match self.spell.get(i).copied().unwrap_or(0) {
+                    1 if v >= 0 => format!("0x{:x}", v),
+                    2 => {
+                        pre.push_str(&format!(".equ fz_k{} = {}\n", i, v));
+                        format!("FZ_K{}", i)
+                    }
+                    3 => format!("({})", v),
+                    4 => format!("{}+0", v),
+                    _ => v.to_string(),
+                }
+            };
+            parts.push(match o {
+                Opd::K(v) => val(*v, &mut pre),
+                Opd::Q(p, q) if *q >= 0 => format!("{:?}+{}", p, val(*q, &mut pre)),
+                other => other.to_string(),
+            });
+        }
+        let mut s = pre;
+        for _ in 0..self.pc {
+            s.push_str("nop\n");
+        }
+        s.push_str(&self.m);
+        if !parts.is_empty() {
+            s.push(' ');
+            s.push_str(&parts.join(", "));
+        }
+        s.push('\n');
+        s
+    }
+}
